@@ -3,6 +3,7 @@
 //! evaluates each property directly on the implementation (failing-input search).
 mod c07;
 mod c08;
+mod c11;
 mod enc;
 mod out;
 mod rng;
@@ -51,6 +52,7 @@ fn main() {
     match prop.as_str() {
         "C07" => c07::run(&a),
         "C08" => c08::run(&a),
+        "C11" => c11::run(&a),
         _ => {
             eprintln!("no harness for {}", prop);
             std::process::exit(2);
